@@ -21,6 +21,7 @@ inductive SOp where
   | change (c : Change)     -- session.add / session.delete / attribute assignment
   | flush
   | commit
+  | rawSql (c : Change)     -- `session.execute(text("UPDATE …"))`: goes straight into the connection's open transaction
   | query                   -- any query (autoflush first)
   | rollback
   | close
@@ -41,6 +42,7 @@ def applyChanges (rows : List Nat) (cs : List Change) : List Nat :=
 def stepRO (s : Sess) : SOp → Sess × SOut
   | .change c => ({ s with pending := s.pending ++ [c] }, .ok)
   | .flush => (s, .ok)                                       -- no-op: pending stays pending
+  | .rawSql c => ({ s with txn := s.txn ++ [c] }, .ok)       -- visible to this session only; never committed
   | .commit => (s, .raised)
   | .query => (s, .rows (applyChanges s.durable s.txn).length)   -- autoflush = no-op flush
   | .rollback => ({ s with txn := [], pending := [] }, .ok)
@@ -50,6 +52,7 @@ def stepRO (s : Sess) : SOp → Sess × SOut
 def stepRW (s : Sess) : SOp → Sess × SOut
   | .change c => ({ s with pending := s.pending ++ [c] }, .ok)
   | .flush => ({ s with txn := s.txn ++ s.pending, pending := [] }, .ok)
+  | .rawSql c => ({ s with txn := s.txn ++ [c] }, .ok)
   | .commit => ({ durable := applyChanges s.durable (s.txn ++ s.pending), txn := [], pending := [] }, .ok)
   | .query => ({ s with txn := s.txn ++ s.pending, pending := [] }, .rows (applyChanges s.durable (s.txn ++ s.pending)).length)
   | .rollback => ({ s with txn := [], pending := [] }, .ok)
